@@ -29,6 +29,7 @@ type encSpec struct {
 	args   []encArg
 	expect map[string][]string // getter -> allowed decoded values (first = the value supplied by the caller)
 	pre    map[int]uint8       // receiver bytes fixed by the view's own encoder (IP4: version/IHL 0x45)
+	flags  map[string]string   // boolean getter -> boolean parameter it must return, decided path by path
 }
 
 func pInt(name string, w int) string { return bitprov.ParamInt(name, w).String() }
@@ -215,7 +216,8 @@ func runC03(c *Ctx) {
 		{fn: "EncodeICMPEcho", view: "ICMPEcho", args: []encArg{{"p", "buf", 0}, {"t", "int", 8}, {"code", "int", 8}, {"id", "int", 16}, {"seq", "int", 16}, {"data", "bytes", 0}},
 			expect: map[string][]string{"Type": {pInt("t", 8)}, "Code": {pInt("code", 8)}, "Checksum": {"0"}, "EchoID": {be16("id")}, "EchoSeq": {be16("seq")}}},
 		{fn: "ICMP6NeighborAdvertisementMarshal", view: "ICMP6NeighborAdvertisement", args: []encArg{{"router", "bool", 0}, {"solicited", "bool", 0}, {"override", "bool", 0}, {"targetAddr", "addrstruct", 0}},
-			expect: map[string][]string{"Type": {"136"}, "Code": {"0"}, "TargetAddress": {"targetAddr.IP[0:16]"}, "TargetLLA": {"targetAddr.MAC[0:6]"}}},
+			expect: map[string][]string{"Type": {"136"}, "Code": {"0"}, "TargetAddress": {"targetAddr.IP[0:16]"}, "TargetLLA": {"targetAddr.MAC[0:6]"}},
+			flags:  map[string]string{"Router": "router", "Solicited": "solicited", "Override": "override"}},
 		{fn: "ICMP6NeighborSolicitationMarshal", view: "ICMP6NeighborSolicitation", args: []encArg{{"targetAddr", "addr", 0}, {"sourceLLA", "bytes", 0}},
 			expect: map[string][]string{"Type": {"135"}, "Code": {"0"}, "TargetAddress": {"targetAddr[0:16]"}, "SourceLLA": {"sourceLLA[0:6]"}}},
 		{fn: "EncodeDNSQuery", view: "DNS", args: []encArg{{"tranID", "int", 16}, {"flags", "int", 16}, {"encodedName", "bytes", 0}, {"questionType", "int", 16}},
@@ -291,6 +293,8 @@ func runC03(c *Ctx) {
 		rets := ev.Run(fn, args)
 		// per getter: the set of decoded values over all successful paths
 		decoded := map[string]map[string]bool{}
+		flagBad := map[string]string{}
+		flagSeen := map[string]int{}
 		okPaths := 0
 		for _, rt := range rets {
 			if rt.Panic || len(rt.Vals) == 0 {
@@ -353,6 +357,51 @@ func runC03(c *Ctx) {
 				}
 				decoded[gname][got] = true
 			}
+			// boolean flags: on this path each flag getter, composed with the image, must be the truth value the path
+			// assumed for its parameter
+			for gname, param := range sp.flags {
+				g, ok := getters[sp.view+"."+gname]
+				if !ok {
+					flagBad[gname] = "no such getter"
+					continue
+				}
+				want := ""
+				for _, lit := range strings.Split(rt.Path, " && ") {
+					lit = strings.TrimSpace(lit)
+					if strings.Contains(lit, "{"+param+".") || strings.Contains(lit, "param "+param) {
+						if strings.HasPrefix(lit, "!") {
+							want = "false"
+						} else {
+							want = "true"
+						}
+					}
+				}
+				if want == "" {
+					want = "false" // the parameter was not tested on this path: nothing sets the bit
+				}
+				for _, gr := range (&bitprov.Eval{}).Run(g.Fn, []bitprov.Val{recvSlice()}) {
+					if gr.Panic || len(gr.Vals) == 0 {
+						continue
+					}
+					got := composeVal(gr.Vals[0], img, maxOff, rs.Fresh)
+					flagSeen[gname]++
+					if got != want {
+						flagBad[gname] = fmt.Sprintf("on the path %s the getter decodes to %s, the caller passed %s=%s", rt.Path, got, param, want)
+					}
+				}
+			}
+		}
+		for gname := range sp.flags {
+			st := core.Proved
+			det := flagBad[gname]
+			if det != "" || flagSeen[gname] == 0 {
+				st = core.Violated
+				if det == "" {
+					det = "no path evaluated"
+				}
+			}
+			r.Add(core.Obligation{Rule: "roundtrip", Key: fmt.Sprintf("roundtrip %s -> %s.%s", sp.fn, sp.view, gname), Func: core.FuncName(fn), Pos: c.P.Pos(fn.Pos()), Status: st,
+				Basis: fmt.Sprintf("flag equals its parameter on %d path evaluations", flagSeen[gname]), Detail: fmt.Sprintf("%s(...).%s(): %s", sp.fn, gname, det)})
 		}
 		var gnames []string
 		for g := range sp.expect {
